@@ -128,6 +128,19 @@ def envR (P : List (Name × Rat)) (names : List Name) (xs : List Rat) (t : Rat) 
 
 /-! ### the generated program, explicitly -/
 
+theorem zeroVars_of_ok {c : Content} (hok : OkV c) :
+    zeroVars (omKeys c.vars) (diffEqs c.rxns)
+      = (omKeys c.vars).filter fun v => !(omKeys (diffEqs c.rxns)).contains v := by
+  simp [zeroVars, hok.hasEq]
+
+theorem retNames_of_ok {c : Content} (hok : OkV c) :
+    retNames (omKeys c.vars) (diffEqs c.rxns) = (omKeys c.vars).map dName := by
+  simp [retNames, hok.hasEq]
+
+/-- the variables no reaction changes, with the value their derivative is assigned -/
+def zeroRows (c : Content) : List (Name × Rat) :=
+  ((omKeys c.vars).filter fun v => !(omKeys (diffEqs c.rxns)).contains v).map fun v => (v, 0)
+
 theorem genModel_ok {c : Content} (hok : OkV c) {L : Lang} (hL : L ≠ .jl) {cache : Cache}
     (hcc : createCache c = .ok cache) (hinit : omKeys cache.init = omKeys c.vars) :
     genModel [] c L [] = .ok
@@ -138,13 +151,15 @@ theorem genModel_ok {c : Content} (hok : OkV c) {L : Lang} (hL : L ≠ .jl) {cac
         assigns := ((emittedPars c cache).map fun kv => (kv.1, Rhs.const kv.2))
           ++ ((defsOf c cache.order).map fun kf => (kf.1, Rhs.app kf.2))
           ++ ((diffEqs c.rxns).map fun vs => (dName vs.1, Rhs.lin vs.2))
-        ret := ((omKeys c.vars).filter fun v => (omKeys (diffEqs c.rxns)).contains v).map dName
+          ++ ((zeroRows c).map fun kv => (dName kv.1, Rhs.const kv.2))
+        ret := (omKeys c.vars).map dName
         retUnit := (diffEqs c.rxns).isEmpty
         retBracket := (templateOf L).retBracket
         retLen := if (templateOf L).sizedRet then some (omKeys c.vars).length else none } := by
   unfold genModel
   simp only [hcc, bind, Except.bind, popAll, emitBody_nil hok, pure, Except.pure, hinit, List.map_map,
-    Function.comp_def, target_id hL, List.isEmpty_nil, Bool.not_true, Bool.false_and, Bool.false_eq_true, if_false]
+    Function.comp_def, target_id hL, List.isEmpty_nil, Bool.not_true, Bool.false_and, Bool.false_eq_true, if_false,
+    zeroVars_of_ok hok, retNames_of_ok hok, zeroRows]
 
 theorem zipBind_ok {names : List Name} {xs : List Rat} (h : names.length = xs.length) (env : Env) :
     zipBind names xs env = .ok ((names.zip xs).reverse ++ env) := by
@@ -254,11 +269,6 @@ theorem equiv_tail (c : Content) (L : Lang) (t : Rat) (xs : List Rat)
       have := hok.onVars
       simp only [stoichOnVars, List.all_eq_true] at this
       simpa using this a (htabk ▸ ha)
-    have hvars_tab : ∀ v ∈ omKeys c.vars, v ∈ tab.map (·.1) := by
-      intro v hv
-      have := hok.eqs
-      simp only [allVarsHaveEq, List.all_eq_true] at this
-      rw [htabk]; simpa using this v hv
     -- ===== left-hand side
     have hcache_init : omKeys cache.init = omKeys c.vars := by rw [hcache]; exact hinitk
     obtain ⟨hunp, hretb⟩ := tmpl_facts hL
@@ -266,21 +276,23 @@ theorem equiv_tail (c : Content) (L : Lang) (t : Rat) (xs : List Rat)
       cases hv : c.vars with
       | nil => exact absurd hv hok.nonempty
       | cons a as => simp [omKeys]
-    have htab_ne : (diffEqs c.rxns).isEmpty = false := by
-      cases hv : c.vars with
-      | nil => exact absurd hv hok.nonempty
-      | cons a as =>
-        have hm : a.1 ∈ tab.map (·.1) := hvars_tab a.1 (by simp [omKeys, hv])
-        rw [hde]
-        cases htb : tab with
-        | nil => rw [htb] at hm; cases hm
-        | cons x y => simp [liftTab]
-    have hfilter : ((omKeys c.vars).filter fun v => (omKeys (diffEqs c.rxns)).contains v) = omKeys c.vars := by
-      apply List.filter_eq_self.mpr
+    have htab_ne : (diffEqs c.rxns).isEmpty = false := hok.hasEq
+    -- the variables no reaction changes
+    have hz_vars : ∀ a ∈ (zeroRows c).map (·.1), a ∈ omKeys c.vars := by
+      intro a ha
+      simp only [zeroRows, List.map_map, Function.comp_def, List.map_id', List.mem_filter] at ha
+      exact ha.1
+    have hz_nd : ((zeroRows c).map (·.1)).Nodup := by
+      simp only [zeroRows, List.map_map, Function.comp_def, List.map_id']
+      exact hn.vNd.filter _
+    have hz_iff : ∀ v ∈ omKeys c.vars, (v ∈ (zeroRows c).map (·.1) ↔ v ∉ tab.map (·.1)) := by
       intro v hv
-      have := hvars_tab v hv
-      rw [htabk] at this
-      simpa using this
+      simp only [zeroRows, List.map_map, Function.comp_def, List.map_id', List.mem_filter, htabk]
+      simp [hv]
+    have hz_val : ∀ v ∈ (zeroRows c).map (·.1), (zeroRows c).lookup v = some 0 := by
+      intro v hv
+      simp only [zeroRows, List.map_map, Function.comp_def, List.map_id'] at hv
+      exact z_lookup _ _ hv
     have hlins : ∀ cr ∈ tab, ∀ rq ∈ cr.2, erun.lookup rq.1 = edyn.lookup rq.1 ∧ ∀ cr' ∈ tab, rq.1 ≠ dName cr'.1 := by
       intro cr hcr rq hrq
       refine ⟨hfull rq.1, fun cr' hcr' heq => ?_⟩
@@ -292,17 +304,21 @@ theorem equiv_tail (c : Content) (L : Lang) (t : Rat) (xs : List Rat)
     have hLHS : genRun [] c L [] t xs [] = (match rowSums edyn tab with
         | .error e => .error e
         | .ok ss => (((omKeys c.vars).map dName).mapM
-            (Env.get ((ss.map fun ks => (dName ks.1, ks.2)).reverse ++ erun))).bind fun out =>
+            (Env.get (((zeroRows c).map fun ks => (dName ks.1, ks.2)).reverse
+              ++ ((ss.map fun ks => (dName ks.1, ks.2)).reverse ++ erun)))).bind fun out =>
               if (templateOf L).sizedRet then
                 (if out.length != (omKeys c.vars).length then .error (.other "ReturnTypeMismatch") else .ok out)
               else .ok out) := by
       unfold genRun
       rw [genModel_ok hok hL hcc hcache_init, hP]
-      simp only [bind, Except.bind, runSLP, SLP.static, hunp, hretb, hvne, htab_ne, hfilter, bindInputs,
+      simp only [bind, Except.bind, runSLP, SLP.static, hunp, hretb, hvne, htab_ne, bindInputs,
         zipBind_ok hlen, Env.setMany, List.zip_nil_right, List.length_nil, bne_self_eq_false,
         Bool.false_eq_true, if_false, pure, Except.pure, Bool.not_false, Bool.true_and, Bool.and_false,
         Bool.false_and, Bool.and_true, Bool.not_true]
-      rw [runAssigns_append, runAssigns_append, hcache]
+      have hZ : ((zeroRows c).map fun kv => (dName kv.1, Rhs.const kv.2))
+          = ((zeroRows c).map fun ks => (dName ks.1, ks.2)).map fun kv => (kv.1, Rhs.const kv.2) := by
+        simp [List.map_map, Function.comp_def]
+      rw [runAssigns_append, runAssigns_append, runAssigns_append, hcache, hZ]
       simp only [runAssigns_consts, Except.bind, runAssigns_apps]
       have herun' : evalSeq (defsOf c order) (P.reverse ++ (((omKeys c.vars).zip xs).reverse ++ [("time", t)])) = .ok erun := herun
       rw [herun']
@@ -314,8 +330,9 @@ theorem equiv_tail (c : Content) (L : Lang) (t : Rat) (xs : List Rat)
       cases rowSums edyn tab with
       | error e => rfl
       | ok ss =>
-        simp only [mapOk, checkRet]
-        cases (List.mapM (Env.get ((ss.map fun ks => (dName ks.1, ks.2)).reverse ++ erun)) ((omKeys c.vars).map dName)) with
+        simp only [mapOk, checkRet, runAssigns_consts, htab_ne, hretb]
+        cases (List.mapM (Env.get (((zeroRows c).map fun ks => (dName ks.1, ks.2)).reverse
+            ++ ((ss.map fun ks => (dName ks.1, ks.2)).reverse ++ erun))) ((omKeys c.vars).map dName)) with
         | error e => rfl
         | ok out => cases (templateOf L).sizedRet <;> simp [pure, Except.pure]
     have hRHS : callRhs c t xs = (match rowSums edyn tab with
@@ -342,31 +359,124 @@ theorem equiv_tail (c : Content) (L : Lang) (t : Rat) (xs : List Rat)
       have hssk : ss.map (·.1) = tab.map (·.1) := rowSums_keys hrs
       have hss_nd : (ss.map (·.1)).Nodup := hssk ▸ htab_nd
       have hss_vars : ∀ a ∈ ss.map (·.1), a ∈ omKeys c.vars := fun a ha => htab_vars a (hssk ▸ ha)
-      have hval : ∀ v ∈ omKeys c.vars, ∃ s, ss.lookup v = some s :=
-        fun v hv => lookup_some_of_mem_keys (hssk ▸ hvars_tab v hv)
+      have hdn : ∀ (m : List (Name × Rat)), (m.map fun ks => (dName ks.1, ks.2)).map (·.1) = (m.map (·.1)).map dName := by
+        intro m; simp [List.map_map, Function.comp_def]
       have hL1 : ∀ v ∈ omKeys c.vars,
-          ((ss.map fun ks => (dName ks.1, ks.2)).reverse ++ erun).lookup (dName v) = some ((ss.lookup v).getD 0) := by
+          (((zeroRows c).map fun ks => (dName ks.1, ks.2)).reverse
+            ++ ((ss.map fun ks => (dName ks.1, ks.2)).reverse ++ erun)).lookup (dName v) = some ((ss.lookup v).getD 0) := by
         intro v hv
-        obtain ⟨s, hs⟩ := hval v hv
-        have hkeys : (ss.map fun ks => (dName ks.1, ks.2)).map (·.1) = (ss.map (·.1)).map dName := by
-          simp [List.map_map, Function.comp_def]
-        have hmem : dName v ∈ (ss.map fun ks => (dName ks.1, ks.2)).reverse.map (·.1) := by
-          rw [keys_reverse, hkeys]
-          exact List.mem_map_of_mem (lookup_some_mem_keys hs)
-        rw [lookup_append_left hmem,
-          lookup_reverse_nodup _ _ (by rw [hkeys]; exact nodup_map_dName hn.dnNd _ hss_nd hss_vars),
-          lookup_map_dName hn.dnNd ss v hss_vars hv, hs]
-        rfl
+        by_cases hvt : v ∈ tab.map (·.1)
+        · -- a variable with an equation: its row sum
+          obtain ⟨s, hs⟩ := lookup_some_of_mem_keys (hssk ▸ hvt)
+          have hnz : dName v ∉ ((zeroRows c).map fun ks => (dName ks.1, ks.2)).reverse.map (·.1) := by
+            rw [keys_reverse, hdn]
+            intro hm
+            obtain ⟨w, hw, hwv⟩ := List.mem_map.mp hm
+            have hwvars := hz_vars w hw
+            have : w = v := by
+              by_cases hne : w = v
+              · exact hne
+              · exfalso
+                have hne' : ¬ v = w := fun h => hne h.symm
+                have h2 := lookup_map_dName hn.dnNd [(w, (1 : Rat))] v
+                  (by intro a ha; simp at ha; subst ha; exact hwvars) hv
+                simp only [List.map_cons, List.map_nil, lookup_cons_eq] at h2
+                rw [← hwv] at h2
+                simp [hne'] at h2
+            subst this
+            exact ((hz_iff w hv).mp hw) hvt
+          have hmem : dName v ∈ (ss.map fun ks => (dName ks.1, ks.2)).reverse.map (·.1) := by
+            rw [keys_reverse, hdn]
+            exact List.mem_map_of_mem (lookup_some_mem_keys hs)
+          rw [lookup_append_right hnz, lookup_append_left hmem,
+            lookup_reverse_nodup _ _ (by rw [hdn]; exact nodup_map_dName hn.dnNd _ hss_nd hss_vars),
+            lookup_map_dName hn.dnNd ss v hss_vars hv, hs]
+          rfl
+        · -- a variable that no reaction changes: assigned zero
+          have hvz : v ∈ (zeroRows c).map (·.1) := (hz_iff v hv).mpr hvt
+          have hmem : dName v ∈ ((zeroRows c).map fun ks => (dName ks.1, ks.2)).reverse.map (·.1) := by
+            rw [keys_reverse, hdn]
+            exact List.mem_map_of_mem hvz
+          have hnone : ss.lookup v = none := lookup_none_of_not_mem (by rw [hssk]; exact hvt)
+          rw [lookup_append_left hmem,
+            lookup_reverse_nodup _ _ (by rw [hdn]; exact nodup_map_dName hn.dnNd _ hz_nd hz_vars),
+            lookup_map_dName hn.dnNd (zeroRows c) v hz_vars hv, hz_val v hvz, hnone]
+          rfl
       have hR1 : ∀ v ∈ omKeys c.vars,
           (ss.foldl (fun d ks => omInsert d ks.1 ks.2) ((omKeys c.vars).map fun k => (k, (0 : Rat)))).lookup v
             = some ((ss.lookup v).getD 0) := by
         intro v hv
-        obtain ⟨s, hs⟩ := hval v hv
-        rw [foldl_omInsert_lookup _ _ _ hss_nd, hs]
-        rfl
+        rw [foldl_omInsert_lookup _ _ _ hss_nd]
+        cases hs : ss.lookup v with
+        | some x => rfl
+        | none => simp only [z_lookup _ _ hv]; rfl
       rw [mapM_get_ok_map dName (fun v => (ss.lookup v).getD 0) _ hL1,
         mapM_get_ok (fun v => (ss.lookup v).getD 0) _ hR1]
       cases (templateOf L).sizedRet <;> simp [Except.bind]
 
+
+/-! ### shape of the generated program, every model -/
+
+/-- whatever the model: language, extra inputs, returned names and the `()` flag of the emitted program -/
+theorem genModel_shape (bad : List Name) (c : Content) (L : Lang) (free : List Name) (p : SLP)
+    (h : genModel bad c L free = .ok p) :
+    p.lang = L ∧ p.extra = free ∧ p.ret = retNames p.inputs (diffEqs c.rxns)
+      ∧ p.retUnit = (diffEqs c.rxns).isEmpty
+      ∧ ∃ cache, createCache c = .ok cache ∧ p.inputs = omKeys cache.init := by
+  unfold genModel at h
+  simp only [bind, Except.bind] at h
+  cases hcc : createCache c with
+  | error e => simp [hcc] at h
+  | ok cache =>
+    simp only [hcc] at h
+    split at h
+    · simp [throw, throwThe, MonadExceptOf.throw] at h
+    · cases hp : popAll (emittedPars c cache) free with
+      | error e => simp [hp, pure, Except.pure] at h
+      | ok ps =>
+        simp only [hp, pure, Except.pure] at h
+        cases hb : emitBody bad c cache.order with
+        | error e => simp [hb] at h
+        | ok body =>
+          simp only [hb, Except.ok.injEq] at h
+          subst h
+          exact ⟨rfl, rfl, rfl, rfl, cache, rfl, rfl⟩
+
+/-- every returned name is the target of an assignment (Python / TypeScript / Rust), whatever the model -/
+theorem genModel_ret_assigned (bad : List Name) (c : Content) (L : Lang) (free : List Name) (p : SLP)
+    (hL : L ≠ .jl) (h : genModel bad c L free = .ok p) :
+    ∀ n ∈ p.ret, n ∈ p.assigns.map (·.1) := by
+  unfold genModel at h
+  simp only [bind, Except.bind] at h
+  cases hcc : createCache c with
+  | error e => simp [hcc] at h
+  | ok cache =>
+    simp only [hcc] at h
+    split at h
+    · simp [throw, throwThe, MonadExceptOf.throw] at h
+    · cases hp : popAll (emittedPars c cache) free with
+      | error e => simp [hp] at h
+      | ok ps =>
+        simp only [hp, pure, Except.pure] at h
+        cases hb : emitBody bad c cache.order with
+        | error e => simp [hb] at h
+        | ok body =>
+          simp only [hb, Except.ok.injEq] at h
+          subst h
+          intro n hn
+          simp only [retNames] at hn
+          split at hn
+          · cases hn
+          · rename_i hne
+            obtain ⟨v, hv, rfl⟩ := List.mem_map.mp hn
+            simp only [List.map_append, List.map_map, Function.comp_def, target_id hL, List.mem_append, List.mem_map]
+            by_cases hd : (omKeys (diffEqs c.rxns)).contains v = true
+            · have : v ∈ omKeys (diffEqs c.rxns) := by simpa using hd
+              obtain ⟨vs, hvs, rfl⟩ := List.mem_map.mp this
+              exact Or.inl (Or.inr ⟨vs, hvs, rfl⟩)
+            · refine Or.inr ⟨v, ?_, rfl⟩
+              have hne' : (diffEqs c.rxns).isEmpty = false := by simpa using hne
+              simp only [zeroVars, hne', Bool.false_eq_true, if_false, List.mem_filter]
+              exact ⟨hv, by simpa using hd⟩
 
 end Mxl.C07
